@@ -130,10 +130,13 @@ def hierarchy(ctx):
 def _chunk(job):
     notation, strings, preds, auto = job
     from bounded import parsing as BP
-    bad = []
+    bad = []; stuck = 0
     for s in strings:
         d = BP.compare(notation, s, preds, auto)
         if d: bad.append((s, d))
+        if d and 'does-not-return' in d:
+            stuck += 1
+            if stuck >= 3: break          # a parser that does not return on these inputs will not return on the rest either
     return len(strings), bad
 
 def bounded_strings(ctx):
@@ -203,13 +206,25 @@ def bounded_misc(ctx):
             texts[2] = ''.join(t)
             p = Parser(notation, Predicates(), auto_preds=True)
             outs = []
+            from pyvc.par import hard_timeout, HardTimeout
+            stuck = False
             for tx in texts[:2]:
-                try: p(tx)
+                try:
+                    with hard_timeout(BP.HARD_SECONDS) as g_: p(tx)
                 except ParseError: pass
+                except HardTimeout: pass
+                if g_.fired: stuck = True
             snapshot = {tuple(q.bicoords): q.arity for q in p.predicates if not q.is_system}
-            try: r1 = ('ok', N.to_ast(p(texts[2])))
+            g_ = None
+            try:
+                with hard_timeout(BP.HARD_SECONDS) as g_: r1 = ('ok', N.to_ast(p(texts[2])))
             except ParseError: r1 = ('error',)
+            except HardTimeout: r1 = ('exception', 'does-not-return')
             except Exception as e: r1 = ('exception', type(e).__name__)
+            if stuck or (g_ is not None and g_.fired):
+                fails.append(dict(kind='history', notation=notation, texts=texts, after_history='does-not-return', fresh='')); n += 1
+                if sum(1 for f_ in fails if f_.get('after_history') == 'does-not-return') >= 3: break
+                continue
             r2 = BP.real_parse(notation, texts[2], snapshot, True)[:2]
             r2 = r2 if r2[0] == 'ok' else (r2[0],) if r2[0] == 'error' else r2
             n += 1
